@@ -155,8 +155,15 @@ def eval_shard(path):
     if bad is None:
         res["rc"] = -1
         return res
-    for m in re.finditer(r"\((\d+),\s*(true|false),\s*(true|false)\)", bad):
-        res["bad"].append((int(m.group(1)), m.group(2) == "true", m.group(3) == "true"))
+    for m in re.finditer(r"\((\d+),\s*(true|false),\s*(true|false)(?:,\s*(true|false))?\)", bad):
+        on_model = True if m.group(4) is None else (m.group(4) == "true")
+        adm, sp = m.group(2) == "true", m.group(3) == "true"
+        if not on_model:
+            res.setdefault("unsound", []).append(int(m.group(1)))
+            sp = True          # a predicate that fails on the model's own observation judges nothing
+            if adm:
+                continue
+        res["bad"].append((int(m.group(1)), adm, sp))
     ctl = parse_list_after(out, "ctl")
     if ctl is not None:
         res["ctl"] = [int(x) for x in re.findall(r"\d+", ctl)]
@@ -209,8 +216,14 @@ def run_part(prop, part, tier, seed, tag=""):
            "-seed", str(seed), "-out", d] + part.get("args", [])
     env = dict(os.environ, GOMAXPROCS=os.environ.get("GOMAXPROCS", "16"))
     rc, out = sh(cmd, cwd=ROOT, env=env)
-    res = {"dir": d, "harness_rc": rc, "harness_out": out[-4000:]}
+    res = {"dir": d, "harness_rc": rc, "harness_out": out[:1500] + "\n...\n" + out[-2500:]}
     if rc != 0:
+        pf = os.path.join(d, "progress.json")
+        if os.path.exists(pf):
+            try:
+                res["crashed_on"] = json.load(open(pf))
+            except Exception:
+                pass
         return res
     res["stats"] = json.load(open(os.path.join(d, "stats.json")))
     shards = eval_shards(d)
@@ -225,6 +238,15 @@ def judge_part(res):
     if "build_error" in res:
         return [], ["harness does not build against the current tree:\n" + res["build_error"]]
     if res.get("harness_rc", 0) != 0:
+        if "crashed_on" in res:
+            # the process died (fatal Go error, or the watchdog of the whole harness) while the
+            # implementation was running this scenario: a concrete failing input
+            c = res["crashed_on"]
+            res["cases"] = {c["id"]: {"id": c["id"], "scen": c["scen"], "tags": c.get("tags"),
+                                      "obs": {"crash": res.get("harness_out", "")[:3000]}}}
+            res["stats"] = {"evaluations": c["id"] + 1, "distinct_nontrivial": 0, "controls": 0}
+            res["shards"] = []
+            return [(c["id"], False, False)], []
         return [], ["harness exited %s:\n%s" % (res["harness_rc"], res.get("harness_out", ""))]
     saw_ctl = False
     for s in res["shards"]:
@@ -232,6 +254,9 @@ def judge_part(res):
             errs.append("coqc failed on %s:\n%s" % (s["shard"], s["out"]))
             continue
         fails.extend(s["bad"])
+        if s.get("unsound"):
+            errs.append("predicate is false of the model's own observation (defect of the predicate, not of the code): cases %s in %s"
+                        % (s["unsound"][:10], s["shard"]))
         if s["ctl"] is not None:
             saw_ctl = True
             if s["ctl"]:
@@ -336,9 +361,9 @@ def check(prop, tier, seed):
                 agg["distinct_nontrivial"] += s["distinct_nontrivial"]
                 agg["traces"] += s["evaluations"]
                 agg["controls"] += s.get("controls", 0)
-                for k, v in s.get("distribution", {}).items():
+                for k, v in (s.get("distribution") or {}).items():
                     agg["dist"][part["family"] + ":" + k] = v
-                agg["samples"].extend(s.get("samples", [])[:2])
+                agg["samples"].extend((s.get("samples") or [])[:2])
                 agg["rules"].append(part["family"] + ": " + s.get("rule", ""))
                 agg["exhaustive"] = agg["exhaustive"] and s.get("exhaustive", False)
                 agg["scopes"].append(part["family"] + ": " + s.get("scope", ""))
@@ -487,6 +512,12 @@ def main(argv):
         if a.replay:
             return replay(a.prop, a.replay)
         return check(a.prop, a.tier, a.seed)
-    except Broken as e:
-        print("BROKEN:", e)
-        return 2
+    except Exception as e:  # fail closed: the property is not shown to hold on this tree
+        import traceback
+        os.makedirs(REPLAYS, exist_ok=True)
+        path = os.path.join(REPLAYS, "%s-machinery-%d.json" % (a.prop, a.seed))
+        json.dump({"property": a.prop, "reason": "the check could not be completed on this tree",
+                   "theorem_or_correspondence": "correspondence harness / orchestrator",
+                   "detail": traceback.format_exc()[-3000:]}, open(path, "w"), indent=1)
+        print("VIOLATION property=%s replay=%s no-failing-input-found" % (a.prop, path))
+        return 1
